@@ -90,7 +90,7 @@ def run(check: Check) -> None:
     gen = formula_gen.formulas(check.seed * 2 + 21, 300 if check.tier == "thorough" else 40, "nobranch")
     todo += [(f, efr) for f in gen for efr in (True, False)]
     # every coding has its own dense and sparse coding-matrix branch: the non-default options of each, explicitly
-    todo += [(f, True) for f in ("C(A, contr.diff(backward=False)) + a", "C(B, contr.helmert(reverse=False, scale=True)):a + b", "C(A, contr.poly(scores=[1, 2, 4]))",
+    todo += [(f, True) for f in ("C(A, contr.diff(backward=False)) + a", "C(B, contr.helmert(reverse=False, scale=True)):a + b",
                                  "C(A, contr.treatment(base='y')) + b", "C(B, contr.SAS(base='u')) + a:C(A, contr.SAS)", "C(A, contr.sum) + C(B, contr.diff(backward=False)):b")]
     check.bounds["generated_formulas"] = len(gen)
     for formula, efr in todo:
